@@ -72,6 +72,7 @@ def _step_of(state, no):
         else:
             rows[str(o)] = None
     st['rows'] = rows
+    st['holder'] = int(state['lockHolder'])
     st['results'] = [str(r) for r in state['result']]
     return st
 
@@ -488,8 +489,9 @@ class Interleaving(object):
     def rows(self):
         return self.world.committed_rows(self.raw)
 
-    def close(self):
-        """End whatever is still running (not compared with anything)."""
+    def close(self, force=False):
+        """End whatever is still running (not compared with anything).  force: a disagreement has already been
+        reported for this interleaving, locks left behind by the real run are cleared instead of being an error."""
         try:
             self.raw.close()
         except Exception:
@@ -507,13 +509,18 @@ class Interleaving(object):
                         progressed = True
                         break
                 if not progressed:
-                    raise MachineryError('sessions blocked although nobody holds the lock')
+                    if not force:
+                        raise MachineryError('sessions blocked although nobody holds the lock')
+                    self.world.tlock.owner = self.world.plock.owner = None
+                    force = False
             else:
                 break
         for w in self.workers.values():
             w.join(WATCHDOG)
             if w.is_alive():
                 raise MachineryError('worker thread did not end')
+        if force:
+            self.world.tlock.owner = self.world.plock.owner = None
 
 
 def _norm_ret(st, res):
@@ -550,6 +557,11 @@ def replay_script(world, script):
     """Run one behaviour. Returns None when the real run agrees with the specification at every step, else a
     dict describing the first disagreement: {index, step, expected, got, kind in (outcome, value, rows)}."""
     inter = Interleaving(world, script['modes'], script.get('variant', 0))
+    found = [False]
+
+    def bad(d):
+        found[0] = True
+        return d
     try:
         for i, st in enumerate(script['steps']):
             cmd = {'k': st['k'], 'o': st['o'], 'x': st['x'], 'm': st['m'], 'wval': st.get('wval')}
@@ -561,15 +573,19 @@ def replay_script(world, script):
             exp = _expected_ret(st)
             if got[0] != exp[0]:
                 detail = repr(res[2])[:300] if res[0] == 'error' else None
-                return {'index': i, 'step': st, 'expected': exp[0], 'got': got[0], 'kind': 'outcome', 'detail': detail}
+                return bad({'index': i, 'step': st, 'expected': exp[0], 'got': got[0], 'kind': 'outcome', 'detail': detail})
             if got[1] != exp[1]:
-                return {'index': i, 'step': st, 'expected': exp[1], 'got': got[1], 'kind': 'value'}
+                return bad({'index': i, 'step': st, 'expected': exp[1], 'got': got[1], 'kind': 'value'})
+            owner = inter.world.tlock.owner
+            holder = owner.sid if isinstance(owner, Worker) else (0 if owner is None else -1)
+            if 'holder' in st and holder != st['holder']:
+                return bad({'index': i, 'step': st, 'expected': st['holder'], 'got': holder, 'kind': 'lock-holder'})
             rows = inter.rows()
             if rows != st['rows']:
-                return {'index': i, 'step': st, 'expected': st['rows'], 'got': rows, 'kind': 'rows'}
+                return bad({'index': i, 'step': st, 'expected': st['rows'], 'got': rows, 'kind': 'rows'})
         return None
     finally:
-        inter.close()
+        inter.close(force=found[0])
 
 
 class Worlds(object):
